@@ -26,6 +26,15 @@ namespace sim {
 typedef uint64_t u64;
 typedef int64_t i64;
 
+// ------------------------------------------------------------------ process-wide operator new balance (defined once per binary in driver.hpp)
+// Counts live blocks obtained through global operator new: memory that bypasses the user allocator (std::string buffers of string
+// items, exception messages, std::function state). Used to detect leaks the tracking allocator cannot see.
+extern long long g_global_new_live;
+// blocks obtained through ::operator new while a TrackGlobalNew scope is open and not yet released (allocation-free bookkeeping)
+extern int g_track_global_new;
+extern long long g_tracked_global_live;
+struct TrackGlobalNew { TrackGlobalNew() { ++g_track_global_new; } ~TrackGlobalNew() { --g_track_global_new; } };
+
 // ------------------------------------------------------------------ randomness
 inline u64 splitmix64(u64& s) {
   u64 z = (s += 0x9e3779b97f4a7c15ULL);
